@@ -138,7 +138,10 @@ func (hc *TopNCollector) Collect(ctx context.Context, aggs search.Aggregations,
 	searchContext := search.NewSearchContext(hc.backingSize+searcher.DocumentMatchPoolSize(), len(hc.sort))
 
 	// add fields needed by aggregations
-	hc.neededFields = append(hc.neededFields, aggs.Fields()...)
+	// a field needed more than once (by the sort and an aggregation, or by
+	// several aggregations) must still be loaded only once, otherwise every
+	// consumer sees each of its values several times
+	hc.neededFields = uniqueFields(append(hc.neededFields, aggs.Fields()...))
 	bucket := search.NewBucket("", aggs)
 
 	var hitNumber int
@@ -261,4 +264,17 @@ func (hc *TopNCollector) finalizeResults() error {
 	}
 
 	return err
+}
+
+// uniqueFields returns the field names without repetitions, keeping the order
+func uniqueFields(fields []string) []string {
+	seen := make(map[string]struct{}, len(fields))
+	rv := fields[:0]
+	for _, f := range fields {
+		if _, ok := seen[f]; !ok {
+			seen[f] = struct{}{}
+			rv = append(rv, f)
+		}
+	}
+	return rv
 }
